@@ -16,6 +16,7 @@ import (
 //@ use errors
 //@ use strconv
 //@ use neturl
+//@ use join
 //@ nonnil unescapeReplacer
 
 // rfcIndex: RFC 6901 section 4 array-index = %x30 / ( %x31-39 *(%x30-39) ) — no leading zeros.
@@ -84,6 +85,20 @@ func hasSub2(s string, a, b byte) bool {
 //@   decreases len(s)
 //@   induct s[1:]
 //@   trigger rfcUnescape(s)
+
+// Token splitting (RFC 6901 section 3: reference tokens are separated by '/'): the callback receives
+// exactly the pieces of s, in order, first separator first; an empty string is ONE empty token.
+//@ func splitFunc(s string, sep byte, cb func(s string) error) (err error)
+//@   callback cb(s string) log parts s
+//@   modifies cb:cb
+//@   uses indexBRange
+//@   ensures parts:  vCbOK(cb) && err == nil ==> vSeqEq(vCbLog(cb, "parts"), vCat(old(vCbLog(cb, "parts")), splitS(s, sep)))
+//@   ensures ok:     vCbOK(cb) ==> err == nil
+//@   ensures cbfail: old(vCbOK(cb)) && !vCbOK(cb) ==> err != nil
+//@   loop 0 vars s_cur string
+//@   loop 0 invariant mono: vCbOK(cb) == old(vCbOK(cb))
+//@   loop 0 invariant acc:  vCbOK(cb) ==> vSeqEq(vCat(vCbLog(cb, "parts"), splitS(s_cur, sep)), vCat(old(vCbLog(cb, "parts")), splitS(s, sep)))
+//@   loop 0 decreases len(s_cur)
 
 //@ func unescape(part string) (r string)
 //@   uses unescapeNoTilde
